@@ -1,6 +1,7 @@
 import FeatModel.Model.Proto
 import FeatModel.Model.Assembly
 import FeatModel.Model.Burgers
+import FeatModel.Model.Blocked
 /-! line-protocol driver for the C16 models (CSR/banded/vector scatter and gather, symbolic assembly, cell-loop assembly) -/
 open FeatModel FeatModel.Proto FeatModel.Adj FeatModel.Asm
 
@@ -123,6 +124,26 @@ def handle : P String := do
       let (a, v) := locs.getD c (0, [])
       (⟨a, tm.getD c [], sm'.getD c [], v⟩ : Call)
     pure (assembleOut g calls)
+  | "asmb" =>
+    -- blocked (BCSR h x w) assembly: arbitrary DOF tables, arbitrary local block matrices, arbitrary cell order
+    let kind ← nat; let nT ← nat; let nS ← nat; let bh ← nat; let bw ← nat; let nc ← nat
+    let tm ← many nc natList; let sm ← many nc natList
+    let order ← natList
+    let locs ← many nc (do let a ← rat; let v ← ratList; pure (a, v))
+    let g := if kind == 1 then symbolicGraph1 nT tm else symbolicGraph2 nT nS tm sm
+    let sm' := if kind == 1 then tm else sm
+    let n := bh * bw
+    let calls : List (CellCallB Rat) := order.map fun c =>
+      let (a, v) := locs.getD c (0, [])
+      let ncol := (sm'.getD c []).length
+      ⟨a, tm.getD c [], sm'.getD c [], fun i j => (v.drop ((i * ncol + j) * n)).take n⟩
+    match g with
+    | none => pure "ABORT"
+    | some g =>
+      let p := Pattern.ofGraph g
+      match assembleB p n calls with
+      | none => pure "UNINIT"
+      | some st => pure s!"MB {showPattern p} {bh} {bw} {showRatsL st.data.toList.flatten}"
   | "bgsd" =>
     -- one Burgers job task over the cells in natural order: the sequence of `local_delta` values
     skipToRec
